@@ -5,7 +5,7 @@ get_next_sec / get_next_twprge / _parse_meaningful / _stage_new_tract (the marke
 abstract first-match positions), TractList.pretty_desc (bounded).  The regex layer is an abstraction contract: on a rendered
 description the finders return exactly the rendered markers (checked by the bounded tier on ~10^4 renderings).
 """
-from pyvc.api import Unit, Int, Bool, Str, Opt, OneOf, Const, Choice, ObjT, Contract, FixedList
+from pyvc.api import Loop, Unit, Int, Bool, Str, Opt, OneOf, Const, Choice, ObjT, Contract, FixedList
 from pyvc.spec import implies, iff, in_re
 from props import plss_stubs
 
@@ -130,6 +130,16 @@ def _cleanup_units():
              ghost={}, max_unroll=12,
              ensures=[('only_the_block_remains', lambda text, result: in_re(result, r'[a-z0-9/(][a-z0-9/ ()½¼#]{0,20}[0-9)½¼]')
                        and result in text)]),
+        # for EVERY text (loop invariant, no bound on the number of rounds): the clean-up only ever cuts at the two ends -- the
+        # result is a contiguous piece of its argument and never longer (used as a fact of the cleanup_desc abstraction elsewhere)
+        Unit(name='C01/cleanup_desc[any text: the result is never longer than the argument]', prop='C01',
+             target='pytrs.parser.plssdesc.plss_parse:cleanup_desc', params={'text': Str()},
+             loops={0: Loop(invariant=lambda text, old_text: len(text) <= len(old_text))},
+             ensures=[('not_longer', lambda text, result: len(result) <= len(text))]),
+        Unit(name='C01/cleanup_desc[any text: the result is an infix of the argument]', prop='C01',
+             target='pytrs.parser.plssdesc.plss_parse:cleanup_desc', params={'text': Str()}, timeout_s=400,
+             loops={0: Loop(invariant=lambda text, old_text: text in old_text)},
+             ensures=[('infix', lambda text, result: result in text)]),
     ]
 
 
